@@ -364,6 +364,7 @@ func init() {
 		Explanation: "Decides: Stop runs metrics, sockets, HTTP, messaging in this order on the one path that is not a repeated Stop, sets stopping under the mutex first and reports the cause on the stop channel last; the messaging client is closed with a bounded wait before the cache stops; Cache.Stop closes the worker channel, clears pending evictions and resets started; no connection is created or registered once stopped or stopping; loss of the messaging connection stops the service with the cause (DOM/stop); sends on inCh cannot hit the close (CHAN: known finding F5); a connection reports itself done to Stop (wg.Done) only after it released its cache and messaging resources (DOM/dispose). Not decided: that sockets are closed within the timeouts, net/http shutdown, 'never serves from a stale cache' as a runtime fact.",
 		Assumptions: baseAssumptions,
 		Rules: []Rule{
+			{Name: "DOM/nats-plumbing", Min: 2, Run: ruleNatsPlumbing, Doc: "every loss of the server connection reaches the closed handler (which stops the service)"},
 			{Name: "DOM/dispose", Min: 3, Run: ruleDispose, Doc: "a connection reports itself done to Stop only after it released everything it holds in the cache and the messaging client"},
 			{Name: "DOM/stop", Min: 3, Run: ruleStop, Doc: "ordered shutdown, cache clean-up, refusal of new connections, closed-handler plumbing"},
 			{Name: "CHAN/close-send", Min: 3, Run: ruleChan, Doc: "no send on a closed channel at shutdown"},
